@@ -498,9 +498,7 @@ class Facts:
         self.dropped_closures = []
         if (self.closure_calls or self.desugared) and os.environ.get("REPE_NO_DESUGAR") != "1":
             from . import combinators as _comb
-            cands_ = {c_ for _, c_ in self.closure_calls}
-            for p_, k_ in self.desugared:
-                cands_ |= {q_ for q_ in d["bodies"] if q_.startswith(p_.split("::{closure")[0] + "::{closure#")}
+            cands_ = {c_ for _, c_ in self.closure_calls} | set(_comb.INLINED_CLOSURES)
             self.dropped_closures = _comb.drop_orphan_closures(d, cands_)
         # functions that differ from the reference tree get one more normalisation: intra-procedural jump threading of
         # known Result/Option variants (error handling folded into one local that is tested later, etc.)
